@@ -187,3 +187,17 @@ def register(claim, na):
         "CrossHair/z3 symbolic execution over symbolic task-kind vectors + SymTrace for the symbolic shot count",
         "DESIGN.md §1 E2/E3, §2 C15",
     )
+    claim(
+        "C09", "model_checking",
+        "Symbolic path exploration (z3) of hermitian_conjugated, is_hermitian and reverse_qubit_order on nine operators (gapped strings, constants, "
+        "duplicates, terms of different widths, the empty sum) whose coefficients are symbolic complex values: the conjugate denotes the adjoint, "
+        "is_hermitian returns True only for (near-)real coefficient maps and False only when some coefficient has an imaginary part, reversing once "
+        "re-indexes q -> n-1-q for n in {default, width, width+1, width+2} and twice is the identity, too few qubits are rejected, arguments untouched. "
+        "The conversions through scipy.sparse or text (get_sparse_operator incl. identity padding and the zero operator, get_pauliop_from_matrix round "
+        "trips, expectation/get_expectation_value incl. non-Hermitian operators) are NOT decided by the solver: they run as ground instances against the "
+        "verifier's dense tensor-product oracle.",
+        "Claimed by the solver only for the three symbolic clauses; the sparse/expansion/expectation clauses are ground numeric comparisons (all Pauli "
+        "strings on <= 3 qubits x paddings, 2x2..8x8 matrices, random states), stated as such in evidence.",
+        "SymTrace path exploration with z3 for the coefficient-level clauses; ground numeric oracle for scipy.sparse/text clauses",
+        "DESIGN.md §1 E2, §2 C09",
+    )
